@@ -1,11 +1,250 @@
-(* C09 — proofs about the common timeline (Formats/Timeline.v) and the composition read -> convert -> write. *)
+(* C09 — proofs about the common timeline (Formats/Timeline.v) and the composition read -> convert -> write.
+   Part 1: laws of the comparison (reflexive, symmetric, triangle, monotone, permutation invariant, shift compatible),
+           soundness of the boolean comparison evaluated by Corr/RunC09.v.
+   Part 2: every adapter maps "same denotation" (the closeness relation of the format's own specification, or equality up
+           to row order) to "same timeline".
+   Part 3: the end-to-end statement for O2Jam -> Quaver by composing C07 (byte-level reader theorem), C08 (cast exactness)
+           and C06 (whole-document writer theorem). *)
 From Coq Require Import ZArith QArith Qround Qabs List Bool Permutation Lia Lqa.
 From RV Require Import Base.PyNum Formats.Timeline.
+From RV Require Formats.Osu Formats.OsuSpec Formats.Qua Formats.QuaSpec Formats.SM Formats.SMSpec Formats.BMSSpec
+  Formats.O2J Formats.O2JSpec.
 Import ListNotations.
 Open Scope Q_scope.
 
-Lemma ms_rel_refl {A} (R : A -> A -> Prop) : (forall x, R x x) -> forall l, ms_rel R l l.
+(* ================================================================== Part 1: the comparison *)
+Lemma Qabs_diff_sym (a b : Q) : Qabs (a - b) == Qabs (b - a).
+Proof. rewrite <- (Qabs_opp (a - b)). apply Qabs_wd. ring. Qed.
+Lemma Qabs_diff_tri (a b c : Q) : Qabs (a - c) <= Qabs (a - b) + Qabs (b - c).
+Proof. setoid_replace (a - c) with ((a - b) + (b - c)) by ring. apply Qabs_triangle. Qed.
+Lemma Qabs_self0 (a : Q) : Qabs (a - a) == 0.
+Proof. setoid_replace (a - a) with 0 by ring. reflexivity. Qed.
+
+(* ---- multiset relation ---- *)
+Lemma Forall2_refl {A} (R : A -> A -> Prop) : (forall x, R x x) -> forall l, Forall2 R l l.
+Proof. intros HR l. induction l; constructor; auto. Qed.
+Lemma Forall2_flip {A B} (R : A -> B -> Prop) a b : Forall2 R a b -> Forall2 (fun y x => R x y) b a.
+Proof. induction 1; constructor; auto. Qed.
+Lemma Forall2_impl {A B} (R S : A -> B -> Prop) : (forall x y, R x y -> S x y) -> forall a b, Forall2 R a b -> Forall2 S a b.
+Proof. intros H a b F. induction F; constructor; auto. Qed.
+Lemma Forall2_comp {A B C} (R : A -> B -> Prop) (S : B -> C -> Prop) a b c :
+  Forall2 R a b -> Forall2 S b c -> Forall2 (fun x z => exists y, R x y /\ S y z) a c.
 Proof.
-  intros HR l. exists l. split; [apply Permutation_refl|].
-  induction l; constructor; auto.
+  intro F. revert c. induction F; intros c G; inversion G; subst; constructor; eauto.
 Qed.
+Lemma Forall2_map {A B C D} (f : A -> C) (g : B -> D) (R : C -> D -> Prop) a b :
+  Forall2 (fun x y => R (f x) (g y)) a b -> Forall2 R (map f a) (map g b).
+Proof. induction 1; cbn; constructor; auto. Qed.
+
+Lemma ms_rel_refl {A} (R : A -> A -> Prop) : (forall x, R x x) -> forall l, ms_rel R l l.
+Proof. intros HR l. exists l. split; [apply Permutation_refl | apply Forall2_refl; exact HR]. Qed.
+
+Lemma ms_rel_sym {A} (R S : A -> A -> Prop) : (forall x y, R x y -> S y x) -> forall a b, ms_rel R a b -> ms_rel S b a.
+Proof.
+  intros H a b [b' [P F]].
+  (* b' is a permutation of b matched with a; permute a along the inverse *)
+  apply Forall2_flip in F.
+  destruct (Permutation_Forall2 (Permutation_sym P) F) as [a' [Pa Fa]].
+  exists a'. split; [exact Pa|]. eapply Forall2_impl; [|exact Fa]. cbn. intros x y. apply H.
+Qed.
+
+Lemma ms_rel_trans {A} (R S T : A -> A -> Prop) : (forall x y z, R x y -> S y z -> T x z) ->
+  forall a b c, ms_rel R a b -> ms_rel S b c -> ms_rel T a c.
+Proof.
+  intros H a b c [b' [Pb Fb]] [c' [Pc Fc]].
+  destruct (Permutation_Forall2 Pb Fc) as [c'' [Pc' Fc']].
+  exists c''. split; [eapply Permutation_trans; eassumption|].
+  eapply Forall2_impl; [|exact (Forall2_comp _ _ _ _ _ Fb Fc')]. cbn. intros x z [y [A1 A2]]. eapply H; eassumption.
+Qed.
+
+Lemma ms_rel_impl {A} (R S : A -> A -> Prop) : (forall x y, R x y -> S x y) -> forall a b, ms_rel R a b -> ms_rel S a b.
+Proof. intros H a b [b' [P F]]. exists b'. split; [exact P | eapply Forall2_impl; eassumption]. Qed.
+
+Lemma ms_rel_perm {A} (R : A -> A -> Prop) a a' b b' :
+  Permutation a a' -> Permutation b b' -> ms_rel R a b -> ms_rel R a' b'.
+Proof.
+  intros Pa Pb [c [Pc F]].
+  destruct (Permutation_Forall2 Pa F) as [c' [Pc' F']].
+  exists c'. split; [|exact F'].
+  eapply Permutation_trans; [apply Permutation_sym; exact Pb|]. eapply Permutation_trans; eassumption.
+Qed.
+
+Lemma ms_rel_app {A} (R : A -> A -> Prop) a1 a2 b1 b2 : ms_rel R a1 b1 -> ms_rel R a2 b2 -> ms_rel R (a1 ++ a2) (b1 ++ b2).
+Proof.
+  intros [c1 [P1 F1]] [c2 [P2 F2]]. exists (c1 ++ c2). split; [apply Permutation_app; assumption | apply Forall2_app; assumption].
+Qed.
+
+Lemma ms_rel_map {A B} (f : A -> B) (R : A -> A -> Prop) (S : B -> B -> Prop) :
+  (forall x y, R x y -> S (f x) (f y)) -> forall a b, ms_rel R a b -> ms_rel S (map f a) (map f b).
+Proof.
+  intros H a b [b' [P F]]. exists (map f b'). split; [apply Permutation_map; exact P|].
+  apply Forall2_map. eapply Forall2_impl; [|exact F]. exact H.
+Qed.
+
+Lemma ms_rel_flat_map {A B} (f : A -> list B) (R : A -> A -> Prop) (S : B -> B -> Prop) :
+  (forall x y, R x y -> Forall2 S (f x) (f y)) -> forall a b, ms_rel R a b -> ms_rel S (flat_map f a) (flat_map f b).
+Proof.
+  intros H a b [b' [P F]]. exists (flat_map f b'). split.
+  - clear F. induction P; cbn; auto.
+    + apply Permutation_app_head; assumption.
+    + rewrite !app_assoc. apply Permutation_app_tail. apply Permutation_app_comm.
+    + eapply Permutation_trans; eassumption.
+  - clear P. induction F as [|x y a0 b0 Rxy F IH]; cbn; [constructor|]. apply Forall2_app; [apply H; exact Rxy | exact IH].
+Qed.
+
+(* ---- notes and tempo points ---- *)
+Lemma note_close_refl r x : 0 <= r -> note_close r x x.
+Proof. intro Hr. unfold note_close. repeat split; rewrite Qabs_self0; exact Hr. Qed.
+Lemma note_close_sym r x y : note_close r x y -> note_close r y x.
+Proof.
+  intros [A [B [C D]]]. unfold note_close. repeat split; auto.
+  - rewrite Qabs_diff_sym; exact C.
+  - rewrite Qabs_diff_sym; exact D.
+Qed.
+Lemma note_close_trans r1 r2 x y z : note_close r1 x y -> note_close r2 y z -> note_close (r1 + r2) x z.
+Proof.
+  intros [A [B [C D]]] [A' [B' [C' D']]]. unfold note_close. repeat split; try congruence.
+  - pose proof (Qabs_diff_tri (tn_time x) (tn_time y) (tn_time z)). lra.
+  - pose proof (Qabs_diff_tri (tn_end x) (tn_end y) (tn_end z)). lra.
+Qed.
+Lemma tempo_close_refl r e x : 0 <= r -> 0 <= e -> tempo_close r e x x.
+Proof. intros Hr He. unfold tempo_close. split; rewrite Qabs_self0; assumption. Qed.
+Lemma tempo_close_sym r e x y : tempo_close r e x y -> tempo_close r e y x.
+Proof. intros [A B]. split; rewrite Qabs_diff_sym; assumption. Qed.
+Lemma tempo_close_trans r1 e1 r2 e2 x y z : tempo_close r1 e1 x y -> tempo_close r2 e2 y z -> tempo_close (r1 + r2) (e1 + e2) x z.
+Proof.
+  intros [A B] [A' B']. split.
+  - pose proof (Qabs_diff_tri (fst x) (fst y) (fst z)). lra.
+  - pose proof (Qabs_diff_tri (snd x) (snd y) (snd z)). lra.
+Qed.
+
+(* reflexive *)
+Theorem timeline_close_refl r e a : 0 <= r -> 0 <= e -> timeline_close r e a a.
+Proof.
+  intros Hr He. split; apply ms_rel_refl; intro x; [apply note_close_refl | apply tempo_close_refl]; assumption.
+Qed.
+(* symmetric (the bound is an absolute one) *)
+Theorem timeline_close_sym r e a b : timeline_close r e a b -> timeline_close r e b a.
+Proof.
+  intros [N T]. split.
+  - eapply ms_rel_sym; [|exact N]. intros x y. apply note_close_sym.
+  - eapply ms_rel_sym; [|exact T]. intros x y. apply tempo_close_sym.
+Qed.
+(* triangle: resolutions add up along a chain of files *)
+Theorem timeline_close_trans r1 e1 r2 e2 a b c :
+  timeline_close r1 e1 a b -> timeline_close r2 e2 b c -> timeline_close (r1 + r2) (e1 + e2) a c.
+Proof.
+  intros [N1 T1] [N2 T2]. split.
+  - eapply ms_rel_trans; [|exact N1|exact N2]. intros x y z. apply note_close_trans.
+  - eapply ms_rel_trans; [|exact T1|exact T2]. intros x y z. apply tempo_close_trans.
+Qed.
+(* monotone in both bounds *)
+Theorem timeline_close_weaken r e r' e' a b : r <= r' -> e <= e' -> timeline_close r e a b -> timeline_close r' e' a b.
+Proof.
+  intros Hr He [N T]. split.
+  - eapply ms_rel_impl; [|exact N]. intros x y [A [B [C D]]]. unfold note_close. repeat split; auto; lra.
+  - eapply ms_rel_impl; [|exact T]. intros x y [A B]. split; lra.
+Qed.
+(* the order of rows is immaterial *)
+Theorem timeline_close_perm r e a a' b b' :
+  Permutation (tl_notes a) (tl_notes a') -> Permutation (tl_tempo a) (tl_tempo a') ->
+  Permutation (tl_notes b) (tl_notes b') -> Permutation (tl_tempo b) (tl_tempo b') ->
+  timeline_close r e a b -> timeline_close r e a' b'.
+Proof.
+  intros P1 P2 P3 P4 [N T]. split; eapply ms_rel_perm; eassumption.
+Qed.
+(* the same column shift on both sides *)
+Theorem timeline_close_shift r e s a b : timeline_close r e a b -> timeline_close r e (tl_shift s a) (tl_shift s b).
+Proof.
+  intros [N T]. split; [|exact T]. cbn.
+  eapply ms_rel_map; [|exact N]. intros x y [A [B [C D]]]. unfold note_close, tn_end in *. cbn. repeat split; auto. congruence.
+Qed.
+
+(* ---- bounds that depend on the reference time ---- *)
+Theorem timeline_close_by_const r e a b : timeline_close_by (fun _ => r) e a b <-> timeline_close r e a b.
+Proof. unfold timeline_close_by, timeline_close, note_close_by, note_close, tempo_close_by, tempo_close. tauto. Qed.
+Theorem timeline_close_by_bound rf R e a b : (forall t, rf t <= R) -> timeline_close_by rf e a b -> timeline_close R e a b.
+Proof.
+  intros H [N T]. split.
+  - eapply ms_rel_impl; [|exact N]. intros x y [A [B [C D]]]. unfold note_close. repeat split; auto.
+    + pose proof (H (tn_time y)). lra.
+    + pose proof (H (tn_end y)). lra.
+  - eapply ms_rel_impl; [|exact T]. intros x y [A B]. split; auto. pose proof (H (fst y)). lra.
+Qed.
+Theorem timeline_close_by_weaken (rf rg : Q -> Q) e e' a b :
+  (forall t, rf t <= rg t) -> e <= e' -> timeline_close_by rf e a b -> timeline_close_by rg e' a b.
+Proof.
+  intros H He [N T]. split.
+  - eapply ms_rel_impl; [|exact N]. intros x y [A [B [C D]]]. unfold note_close_by. repeat split; auto.
+    + pose proof (H (tn_time y)). lra.
+    + pose proof (H (tn_end y)). lra.
+  - eapply ms_rel_impl; [|exact T]. intros x y [A B]. split; [pose proof (H (fst y))|]; lra.
+Qed.
+(* ---- soundness of the boolean comparison ---- *)
+Lemma q_within_true r a b : q_within r a b = true -> Qabs (a - b) <= r.
+Proof. unfold q_within. intro H. apply Qle_bool_iff. exact H. Qed.
+
+Lemma take_first_spec {A} (p : A -> bool) l x r : take_first p l = Some (x, r) -> p x = true /\ Permutation l (x :: r).
+Proof.
+  revert x r. induction l as [|y l IH]; cbn; intros x r H; [discriminate|].
+  destruct (p y) eqn:E.
+  - inversion H; subst. split; [exact E | apply Permutation_refl].
+  - destruct (take_first p l) as [[z r']|] eqn:T; [|discriminate]. inversion H; subst.
+    destruct (IH _ _ eq_refl) as [Px Pp]. split; [exact Px|].
+    eapply Permutation_trans; [apply perm_skip; exact Pp | apply perm_swap].
+Qed.
+
+Lemma ms_matchb_sound {A} (rel : A -> A -> bool) a : forall b, ms_matchb rel a b = true -> ms_rel (fun x y => rel x y = true) a b.
+Proof.
+  induction a as [|x a IH]; cbn; intros b H.
+  - destruct b; [|discriminate]. exists []. split; constructor.
+  - destruct (take_first (rel x) b) as [[y b']|] eqn:T; [|discriminate].
+    destruct (take_first_spec _ _ _ _ T) as [Rxy P]. destruct (IH _ H) as [c [Pc Fc]].
+    exists (y :: c). split; [eapply Permutation_trans; [exact P | apply perm_skip; exact Pc] | constructor; assumption].
+Qed.
+
+Theorem timeline_close_byb_sound rf e a b : timeline_close_byb rf e a b = true -> timeline_close_by rf e a b.
+Proof.
+  unfold timeline_close_byb. intro H. apply andb_true_iff in H as [N T]. split.
+  - eapply ms_rel_impl; [|exact (ms_matchb_sound _ _ _ N)]. cbn. intros x y Hxy. unfold note_close_byb in Hxy.
+    repeat (apply andb_true_iff in Hxy as [Hxy ?]).
+    unfold note_close_by. repeat split.
+    + apply Bool.eqb_prop; assumption.
+    + apply Z.eqb_eq; assumption.
+    + apply q_within_true; assumption.
+    + apply q_within_true; assumption.
+  - eapply ms_rel_impl; [|exact (ms_matchb_sound _ _ _ T)]. cbn. intros x y Hxy. unfold tempo_close_byb in Hxy.
+    apply andb_true_iff in Hxy as [H1 H2]. split; apply q_within_true; assumption.
+Qed.
+Theorem timeline_closeb_sound r e a b : timeline_closeb r e a b = true -> timeline_close r e a b.
+Proof. intro H. apply timeline_close_by_const. apply timeline_close_byb_sound. exact H. Qed.
+
+(* what a `true` of the runner's spec means *)
+Theorem c09_timeline_ok_sound fa fb slack e src tgt :
+  c09_timeline_ok fa fb slack e src tgt = true -> timeline_close_by (res_pair fa fb (tl_tempo src) slack) e tgt src.
+Proof. apply timeline_close_byb_sound. Qed.
+
+(* the resolution of a pair is the coarser of the two (plus the slack), whatever the order of the two formats *)
+Lemma Qmax'_comm a b : Qmax' a b == Qmax' b a.
+Proof.
+  unfold Qmax'. destruct (Qle_bool a b) eqn:E1, (Qle_bool b a) eqn:E2; try reflexivity.
+  - apply Qle_bool_iff in E1, E2. lra.
+  - apply Qle_bool_false in E1, E2. lra.
+Qed.
+Lemma Qmax'_ge_l a b : a <= Qmax' a b.
+Proof. unfold Qmax'. destruct (Qle_bool a b) eqn:E; [apply Qle_bool_iff in E; exact E | lra]. Qed.
+Lemma Qmax'_ge_r a b : b <= Qmax' a b.
+Proof. unfold Qmax'. destruct (Qle_bool a b) eqn:E; [lra | apply Qle_bool_false in E; lra]. Qed.
+Theorem res_pair_coarser fa fb tempo slack t :
+  res_pair fa fb tempo slack t == Qmax' (res_of fa tempo t) (res_of fb tempo t) + slack
+  /\ res_of fa tempo t + slack <= res_pair fa fb tempo slack t /\ res_of fb tempo t + slack <= res_pair fa fb tempo slack t
+  /\ res_pair fa fb tempo slack t == res_pair fb fa tempo slack t.
+Proof.
+  unfold res_pair. rewrite !Qred_correct. split; [reflexivity|]. split; [|split].
+  - pose proof (Qmax'_ge_l (res_of fa tempo t) (res_of fb tempo t)). lra.
+  - pose proof (Qmax'_ge_r (res_of fa tempo t) (res_of fb tempo t)). lra.
+  - rewrite (Qmax'_comm (res_of fa tempo t)). reflexivity.
+Qed.
+(* millisecond formats: the pair resolution of two millisecond formats is 1 ms + slack *)
+Theorem res_pair_ms tempo slack t : res_pair FOsu FQua tempo slack t == 1 + slack /\ res_pair FO2j FQua tempo slack t == 1 + slack.
+Proof. unfold res_pair, res_of. rewrite !Qred_correct. split; reflexivity. Qed.
